@@ -2008,7 +2008,18 @@ impl Account for LocalAccount {
 
     async fn forget_folder(&mut self, folder_id: &VaultId) -> Result<bool> {
         self.ensure_authenticated()?;
-        Ok(self.storage.remove_folder(folder_id).await?)
+        let removed = self.storage.remove_folder(folder_id).await?;
+
+        // A folder that is no longer managed must not be
+        // found by searches either
+        #[cfg(feature = "search")]
+        if removed {
+            if let Some(index) = self.storage.search_index_mut() {
+                index.remove_folder(folder_id).await;
+            }
+        }
+
+        Ok(removed)
     }
 
     #[cfg(feature = "contacts")]
